@@ -21,6 +21,7 @@ type set interface {
 	Len() int
 	Cap() int
 	Iter() []uint
+	IterRemove(k int) []uint
 	Range(k int) []uint
 	All() []uint
 }
@@ -37,6 +38,17 @@ func (s *bitsS) Iter() []uint {
 	out := []uint{}
 	for it := s.b.Iter(); it.Next() && len(out) < 1<<16; {
 		out = append(out, it.Value())
+	}
+	return out
+}
+func (s *bitsS) IterRemove(k int) []uint {
+	out := []uint{}
+	for it := s.b.Iter(); it.Next() && len(out) < 1<<16; {
+		v := it.Value()
+		out = append(out, v)
+		if k == 2 || int(v%2) == k {
+			s.b.Remove(v)
+		}
 	}
 	return out
 }
@@ -62,6 +74,17 @@ func (s *bitmapS) Iter() []uint {
 	}
 	return out
 }
+func (s *bitmapS) IterRemove(k int) []uint {
+	out := []uint{}
+	for it := s.b.Iter(); it.Next() && len(out) < 1<<16; {
+		v := it.Value()
+		out = append(out, v)
+		if k == 2 || int(v%2) == k {
+			s.b.Remove(v)
+		}
+	}
+	return out
+}
 func (s *bitmapS) Range(k int) []uint {
 	out := []uint{}
 	s.b.Range(func(v uint) bool { out = append(out, v); return len(out) < k })
@@ -82,6 +105,17 @@ func (s *dszS) Iter() []uint {
 	out := []uint{}
 	for it := s.b.Iter(); it.Next() && len(out) < 1<<16; {
 		out = append(out, it.Value())
+	}
+	return out
+}
+func (s *dszS) IterRemove(k int) []uint {
+	out := []uint{}
+	for it := s.b.Iter(); it.Next() && len(out) < 1<<16; {
+		v := it.Value()
+		out = append(out, v)
+		if k == 2 || int(v%2) == k {
+			s.b.Remove(v)
+		}
 	}
 	return out
 }
@@ -198,6 +232,8 @@ func (a *ad) Apply(op core.Op) (interface{}, error) {
 	case "Grow":
 		a.x.Grow(uint(core.ArgInt(op, 0)))
 		return []int{}, nil
+	case "IterRemove":
+		return []interface{}{a.x.IterRemove(core.ArgInt(op, 0))}, nil
 	case "AddY":
 		return []bool{a.y.Add(uint(core.ArgInt(op, 0)))}, nil
 	case "RemoveY":
@@ -242,7 +278,9 @@ func (gen) Next(rng *rand.Rand, step int) core.Op {
 		}
 		return rng.Intn(4200)
 	}
-	switch x := rng.Intn(24); {
+	switch x := rng.Intn(25); {
+	case x == 24:
+		return core.MkOp("IterRemove", rng.Intn(3))
 	case x < 7:
 		return core.MkOp("Add", val())
 	case x < 11:
